@@ -23,7 +23,7 @@ type c19Spec struct {
 	FailEach int        `json:"fail_every_nth_settings_statement"`
 	Event    string     `json:"event"` // steady converge diverge operator_enable operator_disable switch_to_lagging switch_from offline_by_lag register_just_above_high
 	Stopped  int        `json:"replica_with_stopped_replication"`
-	NoSemi   bool       `json:"semi_sync_off"` // the pre-switchover turbo phase exists only with semi-sync; without it the switchover itself must switch optimisation off
+	NoSemi   bool       `json:"semi_sync_off"`   // the pre-switchover turbo phase exists only with semi-sync; without it the switchover itself must switch optimisation off
 	Subject  int        `json:"subject_replica"` // register_just_above_high: which replica (the daemons start 0.7 s apart, so this varies the phase between its health checks and the manager's ticks)
 }
 
